@@ -48,6 +48,15 @@ func main() {
 		if len(out) < 2 || out[:2] != "ok" {
 			os.Exit(1)
 		}
+		// then: freshly built trees that nothing has traversed, queried from the root by all goroutines at once
+		for k := uint64(0); k < 3; k++ {
+			out = hx.StressCold(seed*7+k, gs)
+			if len(out) < 2 || out[:2] != "ok" {
+				fmt.Println("cold tree:", out)
+				os.Exit(1)
+			}
+			fmt.Println("ok cold-tree", out[2:])
+		}
 	case "climprobe":
 		fmt.Println(hx.CliRoundTrip(os.Args[2], os.Args[3]))
 	case "probe":
